@@ -339,6 +339,11 @@ def check_C07(chk, tier, seed):
     extra = [(c.replace("SD g", "SDP g", 1), m) for c, m in list(zip(cases, meta))[::7] if c.startswith("SD g")]
     cases += [c for c, _ in extra]
     meta += [(m[0], m[1] + "@others-parked" if m[1] != "interrupted-read" else m[1], m[2]) for _, m in extra]
+    # ... and every ninth case (no timed pauses) polled by hand, every poll on a fresh OS thread: a decode that is waiting for the
+    # rest of a frame may be resumed by any thread of the program
+    extra = [(c.replace("SD g", "SDX g", 1), m) for c, m in list(zip(cases, meta))[::9] if c.startswith("SD g") and " t:" not in c]
+    cases += [c for c, _ in extra]
+    meta += [(m[0], m[1] + "@thread-hopping" if m[1] != "interrupted-read" else m[1], m[2]) for _, m in extra]
     cases += [c for c in regress_cases("C07")]
     meta += [(None, "regress", 0)] * (len(cases) - len(meta))
     impl = core.run_sharded([eng.harness, "codec"], eng.prelude, cases, timeout=900)
@@ -664,6 +669,9 @@ def check_C08(chk, tier, seed):
     chk.validated += 1
     chk.count("volume:4GiB-on-one-connection")
     f = dict(x.split("=", 1) for x in vol.split()[2:] if "=" in x) if vol.startswith("SVBIG closed") else {}
+    if f and f.get("hostile") != "eee":
+        chk.violation("after more than 2^32 octets of requests had been read by the process, frames announcing hostile lengths (1 MiB + 4, 3, 2^24 - 1) were no longer "
+                      "refused with an error (e = error, A = accepted, P = panic, H = hang): " + str(f.get("hostile")), dict(case="SVBIG 4100 100000", impl=short(vol, 400)))
     if not (f.get("calls") == "4100" and f.get("written") == str(4100 * 32)):
         chk.violation("a connection carrying 4100 requests of 1 MiB (more than 2^32 octets in all) was not served to the end: " + short(vol, 300), dict(case="SVBIG 4100 100000", impl=short(vol, 400)))
     # on real sockets: a peer pipelines three requests whose answers are 512 KiB each, closes its sending direction at once and reads
